@@ -2,7 +2,7 @@
    `valid b` = every allocation points at an existing attribute.  In every theorem about release the list p is the
    de-duplicated request in ANY processing order (Go map iteration order is universally quantified). *)
 From Coq Require Import List NArith ZArith Bool Arith.
-From Verif.C21 Require Import Model Spec Proofs ProofsRelease ProofsHist.
+From Verif.C21 Require Import Model Spec Proofs ProofsRelease ProofsHist ProofsInv ProofsCool ProofsClient ProofsClient2.
 Import ListNotations.
 
 (* A release naming a stale sequence number never frees the address: the whole request (for that block) fails with
@@ -89,15 +89,11 @@ Theorem c21_gc_frees_only_cooled : forall cd t b o, valid b ->
 Proof. intros. rewrite state_gc by auto. unfold gcst. destruct (state_of b o); auto. Qed.
 Print Assumptions c21_gc_frees_only_cooled.
 
-(* Cooldown, the queue: the ONLY ways into Unallocated.  After garbage collection / release / release-by-handle at
+(* The queue: the ONLY ways into Unallocated, per operation.  After garbage collection / release / release-by-handle at
    time t every member of the queue was already in it, or was in cooldown with a stamp r such that r + cooldown < t,
    or (negative cooldown only) was live and released by this very call; assign and auto-assign add nothing, and
-   auto-assign hands out only members of the queue.
-   PARTIAL: this is the one-operation statement.  Missing for the history-level statement "released at t => not handed
-   out before t + cooldown": the invariant that nothing but the one-second truncation of a datastore round trip
-   changes the stamp of an ordinal in cooldown (needs: Unallocated lists only free ordinals, no duplicates; cooldown
-   attributes carry no handle). *)
-Theorem c21_cooldown_partial : forall cd t b x, valid b ->
+   auto-assign hands out only members of the queue. *)
+Theorem c21_queue_origin : forall cd t b x, valid b ->
   (In x (bk_unalloc (gc cd t b)) -> In x (bk_unalloc b) \/ exists r, state_of b x = Cooling r /\ cooled cd t r = true)
   /\ (forall p, In x (bk_unalloc (fst (blk_release_ord cd t b p))) -> origin cd t b x)
   /\ (forall h sq, In x (bk_unalloc (fst (blk_release_by_handle cd t b h sq))) ->
@@ -114,7 +110,7 @@ Proof.
   - intros. eapply auto_from_queue; eauto.
   - intros. eapply unalloc_assign; eauto.
 Qed.
-Print Assumptions c21_cooldown_partial.
+Print Assumptions c21_queue_origin.
 
 (* FIFO: auto-assign takes the first num eligible (= not reserved) ordinals of Unallocated, in queue order; what stays
    behind is the queue minus those, order preserved; garbage collection APPENDS the ordinals it frees. *)
@@ -153,6 +149,91 @@ Theorem c21_aba : forall cd1 t1 b op1 o b1 hist cd2 t2 op2 b3,
   (seq_of b1 o < seq_of b3 o)%N.
 Proof. exact aba_strict. Qed.
 Print Assumptions c21_aba.
+
+
+(* ------------------------------------------------------------------ history level cooldown *)
+(* inv b: attribute indices in range, Unallocated lists only free ordinals and has no duplicates, cooldown attributes
+   carry no handle.  It holds of a new block and is preserved by every transaction. *)
+Theorem c21_inv_preserved : forall size seq0 cd t b op,
+  inv (new_block size seq0) /\ (inv b -> inv (txn_block cd t b op)).
+Proof. intros. split; [apply inv_new | apply inv_txn]. Qed.
+Print Assumptions c21_inv_preserved.
+
+(* a release stamps the released address with the clock reading of the call (and frees it at once only under a
+   negative cooldown); the datastore round trip then truncates the stamp to whole seconds (state_persist) *)
+Theorem c21_release_stamps : forall cd t b p o, valid b -> is_live b o = true ->
+  is_live (fst (blk_release_ord cd t b p)) o = true \/
+  state_of (fst (blk_release_ord cd t b p)) o = gcst cd t (Cooling t).
+Proof. exact release_stamps. Qed.
+Print Assumptions c21_release_stamps.
+
+(* THE cooldown theorem, for one stored block under ALL histories of transactions (any clients, any interleaving, any
+   clock reading and cooldown setting per transaction, garbage collection at arbitrary times): an ordinal in cooldown
+   with stamp r stays in cooldown - hence outside the Unallocated queue, hence not handed out - as long as no
+   transaction runs at a clock reading t with  trunc_s r + cooldown < t.  What the code guarantees is therefore
+   "not before (r rounded DOWN to the second) + cooldown", i.e. up to one second less than the configured cooldown
+   after the release; with a negative cooldown there is no protection at all. *)
+Theorem c21_cooldown : forall hist b o r, inv b -> state_of b o = Cooling r ->
+  (forall x, In x hist -> cooled (tx_cd x) (tx_t x) (trunc_s r) = false) ->
+  (exists r', state_of (run hist b) o = Cooling r' /\ trunc_s r' = trunc_s r)
+  /\ ~ In o (bk_unalloc (run hist b)).
+Proof.
+  intros hist b o r I ST NC. destruct (cooldown_history hist b o r I ST NC) as (I2 & r' & ST' & TR).
+  split; [eauto|]. eapply cooling_not_queued; eauto.
+Qed.
+Print Assumptions c21_cooldown.
+
+(* The same through the client, including every path that deletes a block (release of the last address of a non-affine
+   block, ReleaseByHandle, ReleaseAffinity with and without mustBeEmpty) and re-creation by AssignIP: after any history
+   of client calls none of which runs at a clock reading with trunc_s r + cooldown < t, the block still exists and the
+   address is still in cooldown.  (Client-level domain of Model.v: one pool, one host.) *)
+Theorem c21_cooldown_client : forall bs rsv strict autoalloc epoch i o r h st,
+  cooling_at i o r st ->
+  (forall x, In x h -> cooled (cx_cd x) (cx_t x) (trunc_s r) = false) ->
+  cooling_at i o r (crun bs rsv strict autoalloc epoch h st).
+Proof. intros. apply client_cooldown_history; auto. Qed.
+Print Assumptions c21_cooldown_client.
+
+(* Through the client, multi-block ReleaseIPs: a stale or wrong-handle entry in the (de-duplicated) part of the request
+   that falls into block j makes releaseIPsFromBlock write nothing - store unchanged, the block's part reported as
+   failed, none of its addresses reported released; the other blocks of the request are served independently
+   (release_loop).  (rq_ord of q is the ordinal inside block j.) *)
+Theorem c21_client_release_rejects : forall bs cd t st j rs b q,
+  get_block st j = Some b -> inv b ->
+  In q (dedup_last (localise bs j rs)) -> (rq_ord q < bsize b)%nat ->
+  bad_class (classify (gc cd t b) q) ->
+  release_block bs cd t st j rs = (st, ([], false)).
+Proof. exact release_block_rejects. Qed.
+Print Assumptions c21_client_release_rejects.
+
+(* Through the client, ReleaseByHandle: for every block listed in the handle record (listed once), after the loop over
+   the handle's blocks the block is gone (it was non-affine and became empty) or none of the addresses the handle
+   owned in it is live any more.  Blocks NOT listed in the handle record are not visited (rbh_loop_other): exactness in
+   every block therefore rests on C19's agreement between handle records and blocks. *)
+Theorem c21_client_by_handle_exact : forall cd t blks st h j b,
+  NoDup blks -> In j blks -> get_block st j = Some b -> inv b -> (j < length (cs_blocks st))%nat ->
+  handle_cleared cd t b h (get_block (rbh_loop cd t blks st h) j).
+Proof. exact rbh_client_exact. Qed.
+Print Assumptions c21_client_by_handle_exact.
+
+(* PARTIAL model-meets-spec: of the oracle's clauses, the model is proved to satisfy (wf: Unallocated lists only free
+   ordinals, no duplicates, indices in range) = inv, (cool) = c21_cooldown / txn_keeps_cooling, (seq: +1 per write) =
+   c21_seq_strictly_monotone, (auth) for release = c21_release_only_named, (rej) = c21_stale_seq_rejected /
+   c21_wrong_handle_rejected, (idem) = c21_release_idempotent, (byh) = c21_by_handle_exact.  NOT proved: the boolean
+   statement  ok_step (model run) = true  itself (it additionally needs the per-ordinal state and sequence number after
+   autoAssign / assign, the exact FIFO equation through release's two GC passes, and "every free ordinal is queued").
+   Stated here: the clauses (wf) and (cool) for one transaction in the form the oracle checks them. *)
+Theorem c21_model_meets_spec_partial : forall cd t b op o r, inv b ->
+  inv (txn_block cd t b op) /\
+  (state_of b o = Cooling r -> cooled cd t r = false ->
+   state_of (txn_block cd t b op) o = Cooling r \/ state_of (txn_block cd t b op) o = Cooling (trunc_s r)).
+Proof.
+  intros cd t b op o r I. split; [apply inv_txn; auto|]. intros ST NC.
+  destruct (txn_block_shape cd t b op) as [E|E]; rewrite E.
+  - auto.
+  - right. rewrite state_persist, (op_keeps_cooling cd t b op o r I ST NC). auto.
+Qed.
+Print Assumptions c21_model_meets_spec_partial.
 
 (* the hypotheses are satisfiable: allocate, release (cooldown 1s), time passes, reallocate the same ordinal *)
 Example c21_aba_example :
